@@ -13,7 +13,8 @@ KEY_POOLS = {
               "meta", "child", "children", "parent", "status", "kind", "size", "price", "node", "link"],
     "camel": ["userId", "createdAt", "itemList", "ownerName", "isActive", "HTTPCode", "nodeRef", "subItems"],
     "kebab": ["user-id", "created-at", "x-value", "item-list"],
-    "keyword": ["class", "list", "type", "from", "def", "dict", "date", "schema", "None", "pk"],
+    "keyword": ["class", "list", "type", "from", "def", "dict", "date", "schema", "None", "pk", "field", "base_model",
+                "optional", "any", "union", "literal"],
     "unicode": ["имя", "größe", "naïve", "数", "ключ"],
     "odd": ["1st", "9lives", "a b", "a.b", "_private", "__dunder__", "$ref", "@id", "x!", "0day", "00x", "2nd_", "_0", "$", "-"],
 }
@@ -51,6 +52,22 @@ def scalar(rng, kind):
     if kind == "str_time":
         return rng.choice(["12:30", "03:04:05"])
     raise ValueError(kind)
+
+
+def numeric_twin(v, rng):
+    if isinstance(v, bool):
+        return int(v) if rng.random() < 0.5 else v
+    if isinstance(v, int):
+        if v in (0, 1) and rng.random() < 0.3:
+            return bool(v)
+        return float(v) if abs(v) < 2 ** 53 else v
+    if isinstance(v, float) and v.is_integer():
+        return int(v)
+    if isinstance(v, dict):
+        return {k: numeric_twin(x, rng) for k, x in v.items()}
+    if isinstance(v, list):
+        return [numeric_twin(x, rng) for x in v]
+    return v
 
 
 class Gen:
@@ -203,6 +220,16 @@ class Gen:
             samples = [self.instance(sid, k["depth"]) for _ in range(n)]
             if rng.random() < k["p_dup_sample"] and samples:
                 samples.insert(rng.randrange(len(samples) + 1), rng.choice(samples))
+            if rng.random() < k.get("p_numeric_twin", 0.0) and samples:
+                # a twin that is ==-equal to an existing sample but differs in the JSON type of its numbers
+                # (1 / 1.0 / true), placed right next to it
+                j = rng.randrange(len(samples))
+                samples.insert(j + rng.randint(0, 1), numeric_twin(samples[j], rng))
+            if k.get("bulk") and i == 0 and samples:
+                # many samples (beyond any batch size / cache size an implementation might use)
+                base = list(samples)
+                while len(samples) < k["bulk"]:
+                    samples.append(base[rng.randrange(len(base))] if rng.random() < 0.7 else self.instance(sid, 0))
             out.append([names[i % len(names)], samples])
         return out
 
@@ -262,10 +289,14 @@ def draw_knobs(rng: random.Random, **fixed):
         "frameworks": [f for f in ALL_FRAMEWORKS if rng.random() < 0.6] or ["base"],
         "structures": rng.choice([["flat"], ["nested"], ["flat", "nested"]]),
         "chain": rng.random() < 0.08,
+        "p_numeric_twin": rng.choice([0.0, 0.0, 0.5]),
+        "bulk": rng.choice([0] * 240 + [1001, 1200, 2100]),
         "p_shuffle_keys": rng.choice([0.0, 0.0, 0.3, 1.0]),
     }
     if k["chain"]:
-        k.update(n_models=1, depth=2, samples=max(3, k["samples"]), p_null=0.0)
+        k.update(n_models=1, depth=2, samples=max(3, k["samples"]), p_null=0.0, bulk=0)
+    if k["bulk"]:
+        k.update(depth=min(k["depth"], 1), width=min(k["width"], 3), n_models=1)
     k.update(fixed)
     return k
 
